@@ -420,6 +420,8 @@ def _mk_bytes(I, args, kwargs, mutable):
         return SBytes.from_concrete(r, True) if mutable else r
     if isinstance(v, SBytes):
         return SBytes(list(v.segs), mutable)
+    if type(v).__name__ == "FilteredSeq":
+        return v.to_bytes(I, mutable)
     if isinstance(v, STuple):
         return SBytes(list(v.b.segs), mutable)
     if isinstance(v, (bytes, bytearray)):
@@ -743,13 +745,19 @@ def enum_lookup(I, cls, args, kwargs):
                 raise Unsupported("concrete _missing_ raised natively") from ex
             raise PyRaise(I.mkexc(type(ex), *ex.args))
     if is_intlike(v):
-        vals = [m.value for m in members]
-        if not all(isinstance(x, int) and not isinstance(x, bool) for x in vals):
+        vals = [int(m.value) if isinstance(m.value, bool) else m.value for m in members]
+        if not all(isinstance(x, int) for x in vals):
             # non-int valued enum looked up with an int: only _missing_ could accept
             return _enum_missing(I, cls, v)
         e = iexpr(v)
         hit = z3.Or(*[e == x for x in vals])
         if I.path.decide(hit):
+            if any(isinstance(m.value, bool) for m in members):
+                # bool valued enum: index encoding (value 0/1 -> member)
+                idx = z3.IntVal(len(members) - 1)
+                for i in range(len(members) - 2, -1, -1):
+                    idx = z3.If(e == vals[i], z3.IntVal(i), idx)
+                return SEnum(cls, idx, "idx", members)
             return SEnum(cls, e, "val", members)
         return _enum_missing(I, cls, v)
     if isinstance(v, SStr):
@@ -982,7 +990,7 @@ def m_unpack(I, args, kwargs):
             chunk = B.take(I, data, pos, B._add(pos, size))
             chunk = SBytes(chunk.segs).expand()
             if len(chunk.segs) != size:
-                raise Unsupported("struct.unpack: could not isolate numeric field")
+                raise Unsupported(f"struct.unpack: could not isolate numeric field (data={data!r} chunk={chunk!r} known={I.path.__dict__.get('_known')} pc_tail={I.path.pc[-3:]})")
             if code in "fde":
                 out.append(floats.unpack(I, code, chunk, order))
             else:
@@ -1002,6 +1010,43 @@ def m_unpack(I, args, kwargs):
                     out.append(from_be(I, [chunk.at(i) for i in idx], nb=8 * size))
             pos = B._add(pos, size)
     return tuple(out)
+
+
+# ----------------------------------------------------------------------------- math
+import math as _math  # noqa: E402
+
+
+def _math_int_fn(fn_name):
+    def m(I, args, kwargs):
+        from . import floats
+
+        (v,) = args
+        if isinstance(v, SFloat):
+            return getattr(floats, fn_name)(I, v)
+        if isinstance(v, (SInt, SBool)):
+            return I.sint(iexpr(v))
+        return _native(I, getattr(_math, fn_name), args, kwargs)
+
+    return m
+
+
+MODELS[_math.ceil] = _math_int_fn("ceil")
+MODELS[_math.floor] = _math_int_fn("floor")
+
+
+@model(_math.log10)
+def m_log10(I, args, kwargs):
+    from . import floats
+
+    (v,) = args
+    if isinstance(v, (SFloat, SInt, SBool)):
+        return floats.log10(I, v)
+    return _native(I, _math.log10, args, kwargs)
+
+
+@model(_math.isnan, _math.isinf, _math.isfinite)
+def m_isnan(I, args, kwargs):
+    raise Unsupported("math.isnan/isinf/isfinite on symbolic float") if _sym(args) else None
 
 
 # ----------------------------------------------------------------------------- socket (IPv4 text form)
